@@ -300,6 +300,7 @@ type vsSample struct {
 	next     int       // announced next certificate (index), -1 if none
 	follEnd  time.Time // exclusive end of this sample's following certificate period
 	rolls    int       // switches observed so far in this incarnation chain
+	overdue  bool      // taken while a roll-over was due in wall time but the manager's timer, delayed by a clock jump, had not fired yet
 }
 
 type vsTraj struct {
@@ -311,7 +312,77 @@ type vsTraj struct {
 	byHash  map[string]int
 	samples []*vsSample
 	sig     strings.Builder
+
+	off           *atomic.Int64 // wall clock = bubble clock + off (nil: no jumps in this stratum)
+	model         *vsLateModel  // when the pending roll-over timer of a correct manager fires (nil: always on time)
+	jumpSincePrev bool          // a clock jump happened since the previous sample
 }
+
+// wall is the wall clock everybody but the manager's timers lives on: the truth for every oracle.
+func (tr *vsTraj) wall() time.Time {
+	if tr.off == nil {
+		return time.Now()
+	}
+	return time.Now().Add(time.Duration(tr.off.Load()))
+}
+
+// vsJumpClock is what a process sees whose wall clock steps forward (suspend/resume, VM pause, clock step) while its
+// timers run on a monotonic clock that does not: Now() = bubble clock + offset, timers / tickers / Sleep are the
+// bubble's and purely relative. A timer armed for d before a jump of J still fires d of timer time after it was armed,
+// i.e. J late in wall time; timers armed afterwards are relative as usual. The offset only moves forward and only at
+// quiescent instants (harness main task after WaitIdle).
+type vsJumpClock struct {
+	clock.Clock
+	off *atomic.Int64
+}
+
+func (c vsJumpClock) Now() time.Time                  { return c.Clock.Now().Add(time.Duration(c.off.Load())) }
+func (c vsJumpClock) Since(t time.Time) time.Duration { return c.Now().Sub(t) }
+func (c vsJumpClock) Until(t time.Time) time.Duration { return t.Sub(c.Now()) }
+
+var vsJumpSizes = []time.Duration{time.Minute, 59 * time.Minute, 61 * time.Minute, 90 * time.Minute, 5 * time.Hour, 2 * vsDay, 20 * vsDay}
+
+// vsLateModel answers one question from the statement and the documented roll-over rule alone ("once we reach
+// clockSkewAllowance before expiry we switch over", i.e. roll-overs are due on the grid R + k*period, and the manager
+// is driven by a timer): at which wall instant does the pending roll-over timer of a CORRECT manager fire after clock
+// jumps? A timer armed at wall instant a for the next grid instant W fires at W + (forward jumps since a). When it
+// fires, a correct manager re-synchronises with the wall clock: it catches up to the certificate of the period
+// containing that instant and arms its next timer for the following grid instant — so from then on everything holds
+// again FOR GOOD (until the next jump). Before that, between the due instant W and W+late, the manager cannot have
+// rolled (its timer has not fired): samples in that window are "overdue" and only there the valid-until oracle and the
+// one-switch-between-samples assumption are suspended.
+type vsLateModel struct {
+	R      time.Time
+	period time.Duration
+	armedW time.Time     // grid instant the pending timer was aimed at when it was armed
+	late   time.Duration // forward jumps since then
+}
+
+func (m *vsLateModel) nextGrid(after time.Time) time.Time {
+	g := m.R.Add(after.Sub(m.R) / m.period * m.period)
+	for !g.After(after) {
+		g = g.Add(m.period)
+	}
+	for g.Add(-m.period).After(after) {
+		g = g.Add(-m.period)
+	}
+	return g
+}
+func (m *vsLateModel) arm(at time.Time) { m.armedW, m.late = m.nextGrid(at), 0 }
+func (m *vsLateModel) fires() time.Time { return m.armedW.Add(m.late) }
+
+// advanceTo brings the model to wall instant now (settled); it reports whether a timer fired late on the way.
+func (m *vsLateModel) advanceTo(now time.Time) (lateFiring bool) {
+	for !now.Before(m.fires()) {
+		if m.late > 0 {
+			lateFiring = true
+		}
+		m.arm(m.fires())
+	}
+	return
+}
+func (m *vsLateModel) overdue(now time.Time) bool { return m.late > 0 && !now.Before(m.armedW) }
+
 
 func vsHashKey(code uint64, digest []byte) string { return fmt.Sprintf("%x/%x", code, digest) }
 
@@ -356,7 +427,7 @@ func (tr *vsTraj) names(set map[string]bool) string {
 func (tr *vsTraj) take(m *certManager, inc int) *vsSample {
 	o := tr.o
 	simrt.WaitIdle()
-	now := time.Now()
+	now := tr.wall()
 	s := &vsSample{idx: len(tr.samples), inc: inc, at: now, cert: -1, next: -1, prev: -1, serial: map[string]bool{}, addr: map[string]bool{}}
 
 	conf := m.GetConfig()
@@ -413,6 +484,15 @@ func (tr *vsTraj) take(m *certManager, inc int) *vsSample {
 	}
 	sort.Strings(s.addrList)
 
+	if tr.model != nil {
+		if tr.model.advanceTo(now) {
+			o.Probe("late-rollover-timer-fired")
+		}
+		if s.overdue = tr.model.overdue(now); s.overdue {
+			o.Probe("sample-while-rollover-overdue-after-jump")
+			o.Logf("   (roll-over due at %s; the manager's timer, %s late after clock jumps, fires at %s)", tr.rel(tr.model.armedW), tr.model.late, tr.rel(tr.model.fires()))
+		}
+	}
 	toRoll := c.na.Add(-vsSkew).Sub(now)
 	o.Logf("sample#%d inc=%d at %s: served=cert#%d (valid since %s, expires in %s, roll-over in %s) serialized=%s addr=%s next=cert#%d",
 		s.idx, inc, tr.rel(now), s.cert, now.Sub(c.nb), c.na.Sub(now), toRoll, tr.names(s.serial), tr.names(s.addr), s.next)
@@ -423,7 +503,7 @@ func (tr *vsTraj) take(m *certManager, inc int) *vsSample {
 		o.Violate("C18/served/valid-since", "sample#%d at %s: served cert#%d has been valid for %s only (< clock-skew allowance %s)",
 			s.idx, tr.rel(now), s.cert, now.Sub(c.nb), vsSkew)
 	}
-	if now.After(c.na.Add(-vsSkew)) {
+	if now.After(c.na.Add(-vsSkew)) && !s.overdue {
 		o.Violate("C18/served/valid-until", "sample#%d at %s: served cert#%d stays valid for %s only (< clock-skew allowance %s)",
 			s.idx, tr.rel(now), s.cert, c.na.Sub(now), vsSkew)
 	}
@@ -444,9 +524,13 @@ func (tr *vsTraj) take(m *certManager, inc int) *vsSample {
 	if n := len(tr.samples); n > 0 {
 		p := tr.samples[n-1]
 		s.rolls = p.rolls // the roll-over budget of a run spans its restarts
+		oneSwitch := !p.overdue && !tr.jumpSincePrev // otherwise a catch-up over several periods may lie in between
+		tr.jumpSincePrev = false
 		if p.inc == inc {
 			if p.cert != s.cert {
 				s.rolls++
+			}
+			if p.cert != s.cert && oneSwitch {
 				if !p.serial[c.hkey] {
 					o.Violate("C18/advertised/next-missing/serialized", "sample#%d at %s serves cert#%d, but at sample#%d (%s, serving cert#%d) SerializedCertHashes() was %s",
 						s.idx, tr.rel(now), s.cert, p.idx, tr.rel(p.at), p.cert, tr.names(p.serial))
